@@ -393,6 +393,8 @@ type fnGen struct {
 	foreign map[string][]*ast.File // parsed packages of the same module, by import path
 	// "F.param": function-typed parameters declared monadic by the spec monadic:F.param
 	monadicSpecs []string
+	coqNames     map[*ast.TypeSpec]string // struct types declared inside a function: <function>_<name>
+	basicNamed   map[string]ast.Expr      // type EditOp byte: the underlying type
 }
 
 type fnBind struct {
@@ -445,6 +447,11 @@ type fnCtx struct {
 	extras      map[string]*fnVar // by key
 	fat         map[*fnVar]*fnVar // slice variable -> the rest of its backing array (up to cap)
 	lit         *litCtx           // while the body of a function literal is translated
+	// struct types declared inside the function; struct types being expanded (recursion through
+	// pointers); which parameter the view-typed fields of struct literals are windows of
+	localStructs map[string]*ast.TypeSpec
+	structBusy   map[string]*fnType
+	viewBase     map[string]*fnVar
 }
 
 func (c *fnCtx) lostAt(n ast.Node, format string, args ...any) {
@@ -549,6 +556,9 @@ func (c *fnCtx) goType(e ast.Expr) *fnType {
 		if t, ok := c.elemT[v.Name]; ok {
 			return t
 		}
+		if u, ok := c.g.basicNamed[v.Name]; ok && (v.Obj == nil || v.Obj.Kind == ast.Typ) {
+			return c.goType(u) // type EditOp byte
+		}
 		if t := c.structTypeOf(v); t != nil {
 			return t
 		}
@@ -571,6 +581,10 @@ func (c *fnCtx) goType(e ast.Expr) *fnType {
 		}
 	case *ast.SelectorExpr:
 		if t := c.foreignNamedMapTypeOf(v, nil); t != nil {
+			return t
+		}
+	case *ast.StarExpr:
+		if t := c.ptrTypeOf(v); t != nil {
 			return t
 		}
 	case *ast.StructType:
@@ -683,11 +697,17 @@ func (c *fnCtx) typeParams(fl *ast.FieldList) {
 func fnGenerate(f *ast.File, specs []string) (string, []string) {
 	g := &fnGen{file: f, funcs: map[string]*fnFunc{}, byCall: map[string]*fnFunc{}, structs: map[string]*ast.TypeSpec{}, consts: pkgConsts(f),
 		ifaces: map[string]*ast.TypeSpec{}, named: map[string]*ast.TypeSpec{}, usedStructs: map[string]bool{}, recordText: map[string]string{}, writes: map[string][]string{},
-		foreign: map[string][]*ast.File{}}
+		foreign: map[string][]*ast.File{}, coqNames: map[*ast.TypeSpec]string{}, basicNamed: map[string]ast.Expr{}}
 	for _, d := range f.Decls {
 		if gd, ok := d.(*ast.GenDecl); ok && gd.Tok == token.TYPE {
 			for _, s := range gd.Specs {
 				ts := s.(*ast.TypeSpec)
+				if id, ok := ts.Type.(*ast.Ident); ok && ts.TypeParams == nil && !ts.Assign.IsValid() {
+					switch id.Name {
+					case "int", "int64", "uint", "int32", "uint32", "uint64", "bool", "byte", "uint8", "string":
+						g.basicNamed[ts.Name.Name] = id
+					}
+				}
 				if _, ok := ts.Type.(*ast.StructType); ok {
 					g.structs[ts.Name.Name] = ts
 					g.structOrder = append(g.structOrder, ts.Name.Name)
